@@ -2,6 +2,7 @@ package props
 
 import (
 	"fmt"
+	"math"
 	"net/netip"
 	"os"
 	"path/filepath"
@@ -203,9 +204,13 @@ func (e *c13Engines) close() {
 	}
 }
 
-// c13Extra is the content of an optional second list (string-backed, the next
-// list id); empty = none.
-var c13Extra string
+// c13Extra is the content of an optional second list (string-backed); empty =
+// none.  c13ExtraID is its list id (ids congruent modulo small powers of two
+// with the first list's id 0 are the interesting ones).
+var (
+	c13Extra   string
+	c13ExtraID = 1
+)
 
 func c13Build(content string, file string, shared bool) *c13Engines {
 	mk := func() *filterlist.RuleStorage {
@@ -220,7 +225,7 @@ func c13Build(content string, file string, shared bool) *c13Engines {
 			ls = append(ls, &filterlist.StringRuleList{ID: 0, RulesText: content})
 		}
 		if c13Extra != "" {
-			ls = append(ls, &filterlist.StringRuleList{ID: 1, RulesText: c13Extra})
+			ls = append(ls, &filterlist.StringRuleList{ID: c13ExtraID, RulesText: c13Extra})
 		}
 		s, err := filterlist.NewRuleStorage(ls)
 		if err != nil {
@@ -293,6 +298,7 @@ func c13Run(c *core.Ctx, idx int) {
 		extra := c13List(c)
 		extra = append(extra[:min(len(extra), 12)], lines[c.Rng.Intn(len(lines))], lines[c.Rng.Intn(len(lines))])
 		c13Extra = util.Lines(util.Shuffle(c.Rng, extra))
+		c13ExtraID = []int{1, 16, 256, 1 << 16, -16, -1, math.MinInt32, math.MaxInt32}[c.Rng.Intn(8)]
 		c.Event("histories_over_two_lists", 1)
 	}
 	file := ""
@@ -374,7 +380,7 @@ func c13Run(c *core.Ctx, idx int) {
 		derive := c.Rng.Intn(4) == 0 && len(dnsResults)+len(webResults)+len(slices) > 0
 		if derive {
 			// Derived computations on OLD results.
-			derivePanicked := c.Guard("derived-computation-on-old-result", nil, map[string]any{"list": lines, "second_list": c13Extra, "history": hist}, func() {
+			derivePanicked := c.Guard("derived-computation-on-old-result", nil, map[string]any{"list": lines, "second_list": c13Extra, "second_list_id": c13ExtraID, "history": hist}, func() {
 				switch k := c.Rng.Intn(3); {
 				case k == 0 && len(dnsResults) > 0:
 					r := dnsResults[c.Rng.Intn(len(dnsResults))]
@@ -411,13 +417,13 @@ func c13Run(c *core.Ctx, idx int) {
 			var dres *urlfilter.DNSResult
 			var mres *rules.MatchingResult
 			var all []*rules.NetworkRule
-			w := map[string]any{"list": lines, "second_list": c13Extra, "history": hist, "file_backed": file != ""}
+			w := map[string]any{"list": lines, "second_list": c13Extra, "second_list_id": c13ExtraID, "history": hist, "file_backed": file != ""}
 			if c.Guard("query", nil, w, func() { got, ks, dres, mres, all = c13Exec(under, o, i) }) {
 				return
 			}
 			c.Eval(1)
 			if got != want {
-				c.Violation("answer-depends-on-history:"+o.Kind, nil, map[string]any{"list": lines, "second_list": c13Extra, "history": hist, "file_backed": file != "", "got": got, "fresh": want},
+				c.Violation("answer-depends-on-history:"+o.Kind, nil, map[string]any{"list": lines, "second_list": c13Extra, "second_list_id": c13ExtraID, "history": hist, "file_backed": file != "", "got": got, "fresh": want},
 					"operation %d (%s) after %d earlier operations answers differently from a fresh engine:\n got:\n%s\n fresh:\n%s", i, o.key(), i, got, want)
 
 				return
@@ -443,7 +449,7 @@ func c13Run(c *core.Ctx, idx int) {
 		for _, k := range kept {
 			c.Eval(1)
 			if now := k.snap(); now != k.first {
-				c.Violation("earlier-result-changed", nil, map[string]any{"list": lines, "second_list": c13Extra, "history": hist, "object": k.what, "before": k.first, "after": now},
+				c.Violation("earlier-result-changed", nil, map[string]any{"list": lines, "second_list": c13Extra, "second_list_id": c13ExtraID, "history": hist, "object": k.what, "before": k.first, "after": now},
 					"%s (returned by operation %d) changed after operation %d (%s):\n before:\n%s\n after:\n%s", k.what, k.op, i, hist[len(hist)-1], k.first, now)
 
 				return
